@@ -98,7 +98,8 @@ def exec_parse(item):
         if isinstance(t, parser.carriage_return):
             ncr += 1
     if raw is not None:
-        r.violations.append({"key": ("parse_emit", "unclassified_token_left", repr(raw)[:12]), "detail": {"value": raw}, "item": common.strip_item(item)})
+        sep = any(o[0] in ("WFF", "WNB") for o in item.get("ops", ()))
+        r.violations.append({"key": ("parse_emit", "unclassified_token_left", "form_feed_or_nbsp_used_as_separator" if sep else repr(raw)[:12]), "detail": {"value": raw}, "item": common.strip_item(item)})
     if ncr != len(lines):
         r.violations.append({"key": ("parse_emit", "line_break_tokens_differ_from_line_count"), "detail": {"lines": len(lines), "carriage_returns": ncr}, "item": common.strip_item(item)})
     r.states = {base.h64(lines)}
